@@ -46,8 +46,58 @@ def quoting(ctx):
     D, END = unquoted_special(tm)
     D_eff = D - {"&", "\x00"}          # '&' is escaped (Q4); a parsed tree contains no NUL
     f, cfg = serialize_cfg(ctx)
+    # the quoting decision of each policy, evaluated on values that contain one character that is special in an unquoted value
+    # (at the start, in the middle, at the end): every such value must be quoted
+    import re as _re
+    compiled = {}
+    for st_ in f.module.tree.body:
+        if isinstance(st_, ast.Assign) and isinstance(st_.targets[0], ast.Name) and isinstance(st_.value, ast.Call) and \
+                norm(st_.value.func) == "re.compile" and st_.value.args:
+            pat_ = ctx.ce.try_eval(st_.value.args[0], f.module)
+            if isinstance(pat_, str):
+                try:
+                    compiled[st_.targets[0].id] = _re.compile(pat_)
+                except _re.error:
+                    pass
+    for policy in ("spec", "legacy"):
+        decs = []
+        # in serialize() itself (`quote_attr = <decision>`) or in a helper of the module that returns the decision
+        for fn_ in [f] + [x for x in f.module.all_functions if x.qual != f.qual]:
+            for n_ in ast.walk(fn_.node):
+                if isinstance(n_, ast.If) and norm(n_.test) in ("self.quote_attr_values == '%s'" % policy,):
+                    decs += [s_ for s_ in n_.body if (isinstance(s_, ast.Assign) and norm(s_.targets[0]) == "quote_attr") or
+                             (fn_ is not f and isinstance(s_, ast.Return) and s_.value is not None)]
+        key = "quote-decision::%s" % policy
+        if len(decs) != 1:
+            r.idiom("Q2", False, key, f.where, "the quoting decision of policy %r was not found" % policy)
+            continue
+        e = decs[0].value
+        shape = (isinstance(e, ast.Compare) and len(e.ops) == 1 and isinstance(e.ops[0], (ast.Is, ast.IsNot)) and
+                 isinstance(e.comparators[0], ast.Constant) and e.comparators[0].value is None and isinstance(e.left, ast.Call) and
+                 isinstance(e.left.func, ast.Attribute) and e.left.func.attr in ("search", "match", "fullmatch") and
+                 isinstance(e.left.func.value, ast.Name) and e.left.func.value.id in compiled and len(e.left.args) == 1
+                 and isinstance(e.left.args[0], ast.Name))
+        if not shape:
+            r.idiom("Q2", False, key, "%s:%d" % (REL, decs[0].lineno), "quoting decision `%s` not recognised" % norm(e)[:80])
+            continue
+        rx, meth, positive = compiled[e.left.func.value.id], e.left.func.attr, isinstance(e.ops[0], ast.IsNot)
+        unquoted = []
+        for c in sorted(D_eff):
+            for sample in ("a" + c + "b", c + "b", "a" + c, "ab" + c + "cd e"):
+                hit = getattr(rx, meth)(sample) is not None
+                quoted = hit if positive else not hit
+                if not quoted:
+                    unquoted.append(sample)
+        r.check("Q2", not unquoted, key, "%s:%d" % (REL, decs[0].lineno),
+                "with quote_attr_values=%r the value %r is written without quotes (decision `%s`) although it contains a character that "
+                "ends or changes an unquoted attribute value: title=\"home onmouseover=alert(1)\" becomes two attributes on re-parse"
+                % (policy, unquoted[0] if unquoted else "", norm(e)[:70]), {"policy": policy, "unquoted": unquoted[:5]},
+                detail={"policy": policy, "decision": norm(e)[:80], "samples": 4 * len(D_eff)})
     for name in ("_quoteAttributeSpec", "_quoteAttributeLegacy"):
-        cls = regex_class(ctx, name)
+        try:
+            cls = regex_class(ctx, name)
+        except AnalysisError:
+            continue            # the pattern was renamed / reshaped: the decision-based instances above judge it
         missing = sorted(D_eff - cls)
         r.check("Q2", not missing, "needs-quotes::%s" % name, REL,
                 "%s does not contain %s, which %s in an unquoted attribute value: such a value is written unquoted and read "
